@@ -24,7 +24,7 @@ open Drv
 
 def dispatch (line : String) : String :=
   let ws := words line
-  let ops : List (List String → Option String) := [base64Op, mimeOp, netOp, headersOp, cookieOp, parserOp, routerOp, promiseOp, queueOp, promiseMTOp, emitOp, roundTripOp, limitsOp, lifeOp, writeQueueOp, stallOp, clientOp, serveOp, shutdownOp, promiseNOp]
+  let ops : List (List String → Option String) := [base64Op, mimeOp, netOp, headersOp, cookieOp, parserOp, routerOp, promiseOp, queueOp, promiseMTOp, emitOp, roundTripOp, roundTripCutOp, limitsOp, lifeOp, writeQueueOp, stallOp, clientOp, serveOp, shutdownOp, promiseNOp]
   match ops.findSome? (fun f => f ws) with
   | some r => r
   | none => "bad-op"
